@@ -445,4 +445,278 @@ theorem checkRoot_spec (q : TypeDef) (hc : ∀ f ∈ q.fields, f.clean = true) :
   cases isBuiltin f.ty.base <;> simp
 
 
+/-! ### Sortedness of `Map.insert` (no stale entries) -/
+
+structure StrictTotal {κ : Type} (lt : κ → κ → Bool) : Prop where
+  irrefl : ∀ a, lt a a = false
+  trans : ∀ a b c, lt a b = true → lt b c = true → lt a c = true
+  tri : ∀ a b, lt a b = false → a ≠ b → lt b a = true
+
+theorem nameLt_strictTotal : StrictTotal nameLt where
+  irrefl a := by simp [nameLt, String.lt_irrefl]
+  trans a b c := by simp only [nameLt, decide_eq_true_eq]; exact String.lt_trans
+  tri a b := by
+    simp only [nameLt, decide_eq_false_iff_not, decide_eq_true_eq]
+    intro h1 h2
+    have := String.le_total a b
+    have := @String.le_antisymm a b
+    grind
+
+def Map.Sorted {κ ν : Type} (lt : κ → κ → Bool) (m : Map κ ν) : Prop :=
+  m.Pairwise (fun a b => lt a.1 b.1 = true)
+
+theorem Map.mem_insert {κ ν : Type} [DecidableEq κ] (lt : κ → κ → Bool) (k : κ) (v : ν) (m : Map κ ν)
+    (e : κ × ν) (h : e ∈ Map.insert lt k v m) : e = (k, v) ∨ e ∈ m := by
+  induction m with
+  | nil => simpa [Map.insert] using h
+  | cons x m ih =>
+    obtain ⟨k', v'⟩ := x
+    unfold Map.insert at h
+    split at h
+    · simpa using h
+    · split at h
+      · rcases List.mem_cons.mp h with h | h
+        · exact .inl h
+        · exact .inr (List.mem_cons_of_mem _ h)
+      · rcases List.mem_cons.mp h with h | h
+        · exact .inr (by simp [h])
+        · rcases ih h with h | h
+          · exact .inl h
+          · exact .inr (List.mem_cons_of_mem _ h)
+
+theorem Map.insert_sorted {κ ν : Type} [DecidableEq κ] {lt : κ → κ → Bool} (hlt : StrictTotal lt)
+    (k : κ) (v : ν) (m : Map κ ν) (hs : Map.Sorted lt m) : Map.Sorted lt (Map.insert lt k v m) := by
+  induction m with
+  | nil => simp [Map.insert, Map.Sorted]
+  | cons x m ih =>
+    obtain ⟨k', v'⟩ := x
+    unfold Map.Sorted at hs ih ⊢
+    rw [List.pairwise_cons] at hs
+    unfold Map.insert
+    split
+    · rename_i hlk
+      rw [List.pairwise_cons]
+      refine ⟨?_, List.pairwise_cons.mpr hs⟩
+      intro y hy
+      rcases List.mem_cons.mp hy with rfl | hy
+      · exact hlk
+      · exact hlt.trans _ _ _ hlk (hs.1 y hy)
+    · split
+      · rename_i hkk; subst hkk
+        rw [List.pairwise_cons]; exact hs
+      · rename_i hlk hne
+        rw [List.pairwise_cons]
+        refine ⟨?_, ih hs.2⟩
+        intro y hy
+        rcases Map.mem_insert lt k v m y hy with rfl | hy
+        · exact hlt.tri _ _ (by simpa using hlk) hne
+        · exact hs.1 y hy
+
+theorem Map.get?_of_mem_sorted {κ ν : Type} [DecidableEq κ] {lt : κ → κ → Bool} (hlt : StrictTotal lt)
+    {m : Map κ ν} (hs : Map.Sorted lt m) {e : κ × ν} (he : e ∈ m) : Map.get? e.1 m = some e.2 := by
+  induction m with
+  | nil => simp at he
+  | cons x m ih =>
+    obtain ⟨k', v'⟩ := x
+    unfold Map.Sorted at hs ih
+    rw [List.pairwise_cons] at hs
+    rcases List.mem_cons.mp he with rfl | he
+    · simp [Map.get?]
+    · have hne : e.1 ≠ k' := by
+        intro h
+        have := hs.1 e he
+        simp [← h, hlt.irrefl] at this
+      simp only [Map.get?, hne, if_false]
+      exact ih hs.2 he
+
+
+/-! ### `check_field_type_narrowing` -/
+
+theorem get?_paramMap_foldl (args : List Arg) (m : Map Name PTy) (p : Name) :
+    Map.get? p (args.foldl (fun m a => Map.insert nameLt a.name a.ty m) m) =
+      match argTy args p with
+      | some t => some t
+      | none => Map.get? p m := by
+  induction args generalizing m with
+  | nil => simp [argTy]
+  | cons a as ih =>
+    simp only [List.foldl_cons, ih, argTy, Map.get?_insert]
+    cases argTy as p with
+    | some t => rfl
+    | none =>
+      by_cases h : a.name = p
+      · simp [h]
+      · have : ¬ p = a.name := fun h' => h h'.symm
+        simp [h, this]
+
+/-- The `BTreeMap` of parameters maps a name to the type of its last declaration. -/
+theorem get?_paramMap (args : List Arg) (p : Name) : Map.get? p (paramMap args) = argTy args p := by
+  unfold paramMap
+  rw [get?_paramMap_foldl]
+  cases argTy args p <;> simp [Map.get?]
+
+theorem argTy_isSome_iff (args : List Arg) (p : Name) :
+    (argTy args p).isSome = true ↔ ∃ a ∈ args, a.name = p := by
+  induction args with
+  | nil => simp [argTy]
+  | cons a as ih =>
+    simp only [argTy, List.mem_cons, exists_eq_or_imp]
+    cases h : argTy as p with
+    | some t => simp [← ih, h]
+    | none =>
+      have : ¬ ∃ a ∈ as, a.name = p := by rw [← ih, h]; simp
+      by_cases ha : a.name = p <;> simp [ha, this]
+
+theorem mem_keys_paramMap (args : List Arg) (p : Name) :
+    p ∈ Map.keys (paramMap args) ↔ ∃ a ∈ args, a.name = p := by
+  rw [← Map.get?_isSome_iff_mem_keys, get?_paramMap, argTy_isSome_iff]
+
+
+theorem paramMap_sorted_foldl (args : List Arg) (m : Map Name PTy) (hs : Map.Sorted nameLt m) :
+    Map.Sorted nameLt (args.foldl (fun m a => Map.insert nameLt a.name a.ty m) m) := by
+  induction args generalizing m with
+  | nil => exact hs
+  | cons a as ih => exact ih _ (Map.insert_sorted nameLt_strictTotal _ _ _ hs)
+
+theorem paramMap_sorted (args : List Arg) : Map.Sorted nameLt (paramMap args) :=
+  paramMap_sorted_foldl args [] (by simp [Map.Sorted])
+
+/-- The entries of the parameter map are exactly the (name, type-of-last-declaration) pairs. -/
+theorem mem_paramMap_iff (args : List Arg) (e : Name × PTy) :
+    e ∈ paramMap args ↔ argTy args e.1 = some e.2 := by
+  rw [← get?_paramMap]
+  exact ⟨Map.get?_of_mem_sorted nameLt_strictTotal (paramMap_sorted args), Map.mem_of_get?⟩
+
+
+theorem isScalarOnlySubtype_iff (a b : PTy) : a.isScalarOnlySubtype b = true ↔ ScalarNarrows a b := by
+  induction a generalizing b with
+  | named p pn =>
+    cases b with
+    | named s sn =>
+      simp only [PTy.isScalarOnlySubtype, Bool.and_eq_true, Bool.not_eq_true', beq_iff_eq]
+      constructor
+      · rintro ⟨h1, rfl⟩
+        exact .named (by cases pn <;> cases sn <;> simp_all)
+      · intro h; cases h with
+        | named h => exact ⟨by cases pn <;> cases sn <;> simp_all, rfl⟩
+    | list si sn => simp only [PTy.isScalarOnlySubtype]; constructor <;> intro h <;> cases h
+  | list pi pn ih =>
+    cases b with
+    | named s sn => simp only [PTy.isScalarOnlySubtype]; constructor <;> intro h <;> cases h
+    | list si sn =>
+      simp only [PTy.isScalarOnlySubtype, Bool.and_eq_true, Bool.not_eq_true', beq_iff_eq, ih]
+      constructor
+      · rintro ⟨⟨h1, h2⟩, h3⟩
+        exact .list (by cases pn <;> cases sn <;> simp_all) h2 h3
+      · intro h; cases h with
+        | list h1 h2 h3 => exact ⟨⟨by cases pn <;> cases sn <;> simp_all, h2⟩, h3⟩
+
+/-- `is_named_type_subtype` decides `NamedNarrows` (given distinct type names). -/
+theorem isNamedSubtype_iff {vts : List TypeDef} (hnd : (vts.map (·.name)).Nodup) (p s : Name) :
+    isNamedSubtype vts p s = true ↔ NamedNarrows vts p s := by
+  unfold isNamedSubtype NamedNarrows
+  cases hp : findType vts p with
+  | none =>
+    have hpv : ¬ IsVertex vts p := (findType_eq_none_iff _ _).mp hp
+    cases hs : findType vts s with
+    | none => simp [hpv]
+    | some sd =>
+      simp only [Option.isSome_none, hpv, false_and, or_false]
+      constructor
+      · intro h; cases h
+      · rintro rfl; rw [hp] at hs; cases hs
+  | some pd =>
+    have hpv : IsVertex vts p := (findType_isSome_iff _ _).mp (by simp [hp])
+    cases hs : findType vts s with
+    | none =>
+      simp only [Option.isSome_some]
+      constructor
+      · intro h; cases h
+      · rintro (rfl | ⟨_, d, hd, hdn, _⟩)
+        · rw [hp] at hs; cases hs
+        · have := findType_of_mem hnd hd; rw [hdn, hs] at this; cases this
+    | some sd =>
+      simp only [Option.isSome_some, Bool.or_eq_true, beq_iff_eq, List.contains_eq_mem, decide_eq_true_eq, hpv, true_and]
+      have hsd := findType_some hs
+      constructor
+      · rintro (h | h)
+        · exact .inl h
+        · exact .inr ⟨sd, hsd.1, hsd.2, h⟩
+      · rintro (h | ⟨d, hd, hdn, hin⟩)
+        · exact .inl h
+        · have := findType_of_mem hnd hd; rw [hdn, hs] at this
+          cases this; exact .inr hin
+
+theorem isSubtype_iff {vts : List TypeDef} (hnd : (vts.map (·.name)).Nodup) (a b : PTy) :
+    isSubtype vts a b = true ↔ Narrows vts a b := by
+  induction a generalizing b with
+  | named p pn =>
+    cases b with
+    | named s sn =>
+      simp only [isSubtype, Bool.and_eq_true, Bool.not_eq_true', isNamedSubtype_iff hnd]
+      constructor
+      · rintro ⟨h1, h2⟩
+        exact .named (by cases pn <;> cases sn <;> simp_all) h2
+      · intro h; cases h with
+        | named h1 h2 => exact ⟨by cases pn <;> cases sn <;> simp_all, h2⟩
+    | list si sn => simp only [isSubtype]; constructor <;> intro h <;> cases h
+  | list pi pn ih =>
+    cases b with
+    | named s sn => simp only [isSubtype]; constructor <;> intro h <;> cases h
+    | list si sn =>
+      simp only [isSubtype, Bool.and_eq_true, Bool.not_eq_true', ih]
+      constructor
+      · rintro ⟨h1, h2⟩
+        exact .list (by cases pn <;> cases sn <;> simp_all) h2
+      · intro h; cases h with
+        | list h1 h2 => exact ⟨by cases pn <;> cases sn <;> simp_all, h2⟩
+
+/-- What `check_field_type_narrowing` requires of a field `f` against the same-named field `pf` of
+an implemented type. -/
+def NarrowRule (vts : List TypeDef) (pf f : Field) : Prop :=
+  Narrows vts pf.ty f.ty ∧
+  (∀ p, (∃ a ∈ pf.args, a.name = p) ↔ (∃ a ∈ f.args, a.name = p)) ∧
+  (∀ p cty pty, argTy f.args p = some cty → argTy pf.args p = some pty → ScalarNarrows cty pty)
+
+def NarrowingRule (vts : List TypeDef) : Prop :=
+  ∀ t ∈ vts, ∀ f ∈ t.fields, ∀ i ∈ t.implements, ∀ pf, lookupField vts i f.name = some pf →
+    NarrowRule vts pf f
+
+def ArgsShallow (f : Field) : Prop := ∀ a ∈ f.args, a.ty.shallow = true
+
+theorem argTy_shallow {args : List Arg} (h : ∀ a ∈ args, a.ty.shallow = true) {p : Name} {t : PTy}
+    (ht : argTy args p = some t) : t.shallow = true := by
+  induction args with
+  | nil => simp [argTy] at ht
+  | cons a as ih =>
+    simp only [argTy] at ht
+    cases h' : argTy as p with
+    | some t' =>
+      rw [h'] at ht; cases ht
+      exact ih (fun b hb => h b (by simp [hb])) h'
+    | none =>
+      rw [h'] at ht
+      by_cases ha : a.name = p
+      · simp [ha] at ht; subst ht; exact h a (by simp)
+      · simp [ha] at ht
+
+theorem checkParamType_spec (t : TypeDef) (f pf : Field) (i : Name)
+    (hf : ArgsShallow f) (hpf : ArgsShallow pf) (p : Name × PTy) (hp : p ∈ paramMap f.args) :
+    ∃ es, checkParamType t f i (paramMap pf.args) p = .ok es ∧
+      (es = [] ↔ ∀ pty, argTy pf.args p.1 = some pty → ScalarNarrows p.2 pty) := by
+  unfold checkParamType
+  rw [get?_paramMap]
+  cases hpty : argTy pf.args p.1 with
+  | none => exact ⟨[], rfl, by simp⟩
+  | some pty =>
+    have h2 : pty.shallow = true := argTy_shallow hpf hpty
+    have h1 : p.2.shallow = true := argTy_shallow hf ((mem_paramMap_iff _ _).mp hp)
+    simp only [fromType_ok h1, fromType_ok h2]
+    refine ⟨_, rfl, ?_⟩
+    by_cases hs : p.2.isScalarOnlySubtype pty = true
+    · simp [hs, (isScalarOnlySubtype_iff _ _).mp hs]
+    · have : ¬ ScalarNarrows p.2 pty := fun h => hs ((isScalarOnlySubtype_iff _ _).mpr h)
+      simp [hs, this]
+
+
 end TF.SchemaDoc
